@@ -43,7 +43,8 @@ LITERALS = ["0", "1", "-1", "0x7fffffffffffffff", "9223372036854775808", "1.5", 
 DIRECTIVES = ["#define M0 1\n", "#define M1(a,b) ((a)+(b))\n", "#define M2(a) M2(a)\n", "#define FOO\n", "#undef M0\n", "#if 1\n", "#if 0\n", "#ifdef M0\n",
               "#ifndef M1\n", "#else\n", "#elif 1\n", "#endif\n", "#include \"inc_ok.h\"\n", "#include \"inc_openif.h\"\n", "#include \"inc_self.h\"\n",
               "#include <inc_ok.h>\n", "#include \"nonexistent.h\"\n", "#include \"../../etc/passwd\"\n", "#pragma strict_types\n", "#pragma save_binary\n",
-              "#pragma warnings\n", "#pragma nonsense\n", "#line 100\n", "#echo hi\n", "#error stop\n", "#if @\n", "#if (1 /\n", "#if defined(M0) && M1(1,2)\n",
+              "#pragma warnings\n", "#pragma nonsense\n", "#pragma show_error_context\n", "#pragma show_error_context\n", "#pragma save_types\n", "#pragma optimize\n",
+              "#pragma no_strict_types\n", "#pragma no_warnings\n", "#include \"..//../inc_ok.h\"\n", "#include \"./inc//inc_ok.h\"\n", "#line 100\n", "#echo hi\n", "#error stop\n", "#if @\n", "#if (1 /\n", "#if defined(M0) && M1(1,2)\n",
               "#define\n", "#define M3(\n", "#define M4(a,a) a\n", "#include\n", "#\n", "# 12 \"x.c\"\n", "#define M5 \\\n 1 + \\\n 2\n"]
 TEXTBLOCKS = ["@END\nline one\nline two\nEND\n", "@@END\nl1\nl2\nEND\n", "@END\nnever closed\n", "@\n", "@END"]
 TOKENS = KEYWORDS + OPERATORS + LITERALS
